@@ -148,12 +148,18 @@ def main(tier: str, seed: int) -> int:
                  max_depth=3, patterns=trees.PATTERNS, max_pat=3, share=True,
                  simulate=1500),
             dict(kinds=['linear', 'conv', 'linsub'], frozen=['none'],
-                 max_leaves=3, max_depth=2, patterns=trees.CI_PATTERNS,
+                 max_leaves=2, max_depth=1, patterns=trees.CI_PATTERNS,
                  max_pat=3, share=False),
+            dict(kinds=['linear', 'conv', 'linsub'], frozen=['none'],
+                 max_leaves=3, max_depth=2, patterns=trees.CI_PATTERNS,
+                 max_pat=3, share=False, simulate=4000),
+            dict(kinds=['linear', 'conv', 'act'], frozen=['none'],
+                 max_leaves=2, max_depth=2, patterns=trees.PATTERNS[:4],
+                 max_pat=1, share=True, segs=('a', 'ab', 'a_b', 'b')),
             dict(kinds=['linear', 'conv', 'linsub', 'act', 'empty'],
-                 frozen=['none', 'all'], max_leaves=3, max_depth=2,
+                 frozen=['none', 'all'], max_leaves=4, max_depth=2,
                  patterns=trees.PATTERNS[:4], max_pat=1, share=True,
-                 segs=('a', 'ab', 'a_b', 'b')),
+                 segs=('a', 'ab', 'a_b', 'b'), simulate=6000),
         ]
     gscope = dict(kinds=['colpar', 'rowpar', 'linear', 'act', 'empty'],
                   frozen=['none', 'part', 'all'], max_leaves=2, max_depth=2,
